@@ -7,13 +7,13 @@ D="/dev/shm/mut-$$"
 rm -rf "$D"; mkdir -p "$D"
 rsync -a --exclude .git /repo/ "$D/"
 ( cd "$D" && patch -p1 -s < "$PATCH" ) || { echo "patch failed"; rm -rf "$D"; exit 3; }
-BEFORE="$(mktemp)"; find /verif/replays -type f 2>/dev/null | sort > "$BEFORE"
+BEFORE="$(mktemp)"; find /verif/replays -type f -not -path "/verif/replays/known/*" 2>/dev/null | sort > "$BEFORE"
 cp "/verif/evidence/$PID.json" "$D/.evidence.bak" 2>/dev/null
 VERIF_REPO="$D" VERIF_SHRINK_S="${VERIF_SHRINK_S:-10}" /verif/check "$PID" "$@" | grep -E "^(VIOLATION|KNOWN|vsim:|HARNESS|violation:)" | cut -c1-300
 rc=${PIPESTATUS[0]}
 cp "$D/.evidence.bak" "/verif/evidence/$PID.json" 2>/dev/null
 rm -rf "$D"
 # replays written while testing a mutant are not kept
-find /verif/replays -type f 2>/dev/null | sort | comm -13 "$BEFORE" - | while read -r f; do rm -f "$f"; done
+find /verif/replays -type f -not -path "/verif/replays/known/*" 2>/dev/null | sort | comm -13 "$BEFORE" - | while read -r f; do rm -f "$f"; done
 rm -f "$BEFORE"
 exit $rc
